@@ -127,5 +127,15 @@ let () =
       let VKey (_, _, _, kr) = vsot_recv_key k O a w (vsot_bigB b) in
       let (VKey (_, _, _, k0), VKey (_, _, _, k1)) = vsot_send_keys k O b bigA in
       Printf.printf "S %s %s %s %s %s\n" id (hex_of_z bigA) (hex_of_z kr) (hex_of_z k0) (hex_of_z k1)
+    | ["C"; id; p; a; bi; c] ->
+      (* ecbbot in the exponent; the hash-to-curve functions and the programmed random point are arbitrary *)
+      let k = zp (z_of_hex p) in
+      let a = z_of_hex a and bi = z_of_hex bi and c = (c = "1") in
+      let h0 = (fun x -> k.fmul x x) and h1 = (fun x -> k.fadd x k.f1) in
+      let s = k.fadd a bi in
+      let (phi, EKey (_, _, kr)) = ec_recv k h0 h1 O c bi s a in
+      let (e0, e1) = ec_send k h0 h1 O a phi in
+      let EKey (_, _, ks) = if c then e1 else e0 in
+      Printf.printf "C %s %s %s %s\n" id (hex_of_z kr) (hex_of_z ks) (if e0 <> e1 then "1" else "0")
     | "V" :: id :: kv -> vole_case id kv
     | _ -> failwith ("bad line " ^ line))
